@@ -108,6 +108,13 @@ where
         let mut o = self.dst.write_buf()?;
         let (input, tags) = self.src.read_buf()?;
         let n = std::cmp::min(input.len(), o.len());
+        if n == 0 {
+            // The delay filled the output exactly, or the skip used up the
+            // input (this call did move data). Committing zero samples
+            // together with the window's tags is a caller bug that
+            // `produce()` asserts on in debug builds.
+            return Ok(BlockRet::Again);
+        }
         o.fill_from_slice(&input.slice()[..n]);
         o.produce(n, &tags);
         input.consume(n);
